@@ -305,6 +305,33 @@ def sweep(job, root, apath, ids):
             problems.append((k, lines[k - 1] if k <= total else "?", what))
         obs.append((k, lines[k - 1] if k <= total else "?", after))
         shutil.rmtree(os.path.dirname(q), ignore_errors=True)
+    # a GRACEFUL kill at the same places (SIGTERM / SIGINT delivered to the process itself; Conductor's handler decides): a restore
+    # that then ends non-zero must have left the recorded versions as they were, one that ends with status 0 must be complete
+    import signal as _signal
+    from common import SRC as _SRC
+
+    commit_idx = None
+    try:
+        src_lines = open(os.path.join(_SRC, "conductor", "cli", "restore.py"), encoding="utf-8").read().splitlines()
+        commit_nos = [i + 1 for i, t in enumerate(src_lines) if ".commit_changes(" in t]
+        if len(commit_nos) == 1 and ("restore.py:%d" % commit_nos[0]) in lines:
+            commit_idx = lines.index("restore.py:%d" % commit_nos[0])
+    except OSError:
+        pass
+    for n_, k in enumerate(ks[::3] if mode != "full" else ks[::7]):
+        sg = (_signal.SIGTERM, _signal.SIGINT)[n_ % 2]
+        q = au.clone_project(base, "s")
+        rr = implrun.run_cond(["restore", apath], q, pre=au.crash_pre(k, None, sg))
+        after = au.observe(q, ids)
+        snaps_a = au.version_snaps(q)
+        # a signal that arrives once the commit has begun cannot be undone any more (the restore is complete although it reports the
+        # abort): judged like a kill.  One that arrives BEFORE the line that commits must leave nothing recorded when the command
+        # then ends non-zero.  (The commit line is found in the sources of the tree under test; when it cannot be found the weaker
+        # judgement is used throughout.)
+        before_commit = commit_idx is not None and (k - 1) <= commit_idx
+        for what in check_outcome("signal", rr.code if rr.code is not None else 1, before, after, snaps_b, snaps_a, xv, killed=not before_commit):
+            problems.append((k, "%s delivered before %s" % (sg.name, lines[k - 1] if k <= total else "?"), what))
+        shutil.rmtree(os.path.dirname(q), ignore_errors=True)
     shutil.rmtree(os.path.dirname(base), ignore_errors=True)
     return {"mode": mode, "target": job["sweep"]["target"], "total_lines": total, "ks": ks, "before": before, "x": xv,
             "final": final, "final_exit": r0.code, "obs": obs, "problems": problems}
